@@ -1537,7 +1537,7 @@ class Engine:
     def setitem(self, obj, key, v):
         from . import models
         if isinstance(obj, (Arr,)):
-            obj[key] = v
+            obj[self.expand_ellipsis(key, obj.ndim)] = v
         elif isinstance(obj, list):
             if isinstance(key, Num):
                 c = conc_of(key)
@@ -1554,6 +1554,8 @@ class Engine:
 
     def getitem(self, obj, key):
         from . import models
+        if isinstance(obj, Arr):
+            key = self.expand_ellipsis(key, obj.ndim)
         if isinstance(obj, (Arr, SymSeq)):
             return obj[key]
         if isinstance(obj, (list, tuple, str)):
@@ -1737,6 +1739,22 @@ class Engine:
             return tuple(self.eval_index(x, env) for x in s.elts)
         return self.eval(s, env)
 
+    @staticmethod
+    def expand_ellipsis(key, ndim):
+        """a[..., 0] -> a[:, :, 0]: the Ellipsis stands for as many full slices as are needed"""
+        if key is Ellipsis:
+            return tuple([slice(None)] * ndim)
+        if isinstance(key, tuple) and any(k is Ellipsis for k in key):
+            n_real = sum(1 for k in key if k is not None and k is not Ellipsis)
+            out = []
+            for k in key:
+                if k is Ellipsis:
+                    out.extend([slice(None)] * (ndim - n_real))
+                else:
+                    out.append(k)
+            return tuple(out)
+        return key
+
     def e_Slice(self, e, env):
         return self.eval_index(e, env)
 
@@ -1818,6 +1836,7 @@ class Engine:
             return a % b
         table = {ast.Add: (O.add, O.iadd), ast.Sub: (O.sub, O.isub), ast.Mult: (O.mul, O.imul),
                  ast.BitAnd: (O.and_, O.iand), ast.BitOr: (O.or_, O.ior), ast.BitXor: (O.xor, O.ixor),
+                 ast.LShift: (O.lshift, O.ilshift), ast.RShift: (O.rshift, O.irshift),
                  ast.MatMult: (O.matmul, O.imatmul)}
         f = table.get(type(op))
         if f is None:
@@ -1961,7 +1980,25 @@ class Engine:
         return self.comprehension(e, env, "set")
 
     def e_DictComp(self, e, env):
-        raise Unsupported("dict comprehension")
+        # dict comprehension over concrete iterables only (one or more generators, optional filters decided on this path)
+        out = {}
+
+        def rec(gi, env2):
+            if gi == len(e.generators):
+                out[self.eval(e.key, env2)] = self.eval(e.value, env2)
+                return
+            g = e.generators[gi]
+            it = self.as_iterable(self.eval(g.iter, env2))
+            if isinstance(it, SymSeq) and not isinstance(it.n, int):
+                raise Unsupported("dict comprehension over a sequence of symbolic length")
+            items = list(it) if not isinstance(it, SymSeq) else [it.get(i) for i in range(it.n)]
+            for x in items:
+                env3 = Env(parent=env2)
+                self.assign(g.target, x, env3)
+                if all(self.truth(self.eval(c, env3)) for c in g.ifs):
+                    rec(gi + 1, env3)
+        rec(0, env)
+        return out
 
     def comprehension(self, e, env, kind):
         from . import models
